@@ -195,7 +195,8 @@ def main():
     for r in results:
         lk = lock.get(r["task"], {})
         # did the source of any function this task reads change since the lock was made?
-        code_changed = bool(lk.get("shas")) and lk.get("shas") != r.get("shas")
+        # (a task that stops early has read fewer functions: only those it did read are compared)
+        code_changed = bool(lk.get("shas")) and any(lk["shas"].get(k_) != v_ for k_, v_ in (r.get("shas") or {}).items())
         fully_proved_in_lock = bool(lk) and lk.get("status") == "ok" and not lk.get("not_discharged")
         assumed.update(r.get("assumed", []))
         f = r["function"] if isinstance(r["function"], dict) else {"function": r["task"]}
